@@ -620,3 +620,91 @@ theorem initStU_masked (c : ClassD) : Masked c (initStU c) (initSt c) :=
       simp [this]⟩
 
 end C02
+
+namespace C02
+open Tp
+
+/-- the state the emitted module is in after its `initial` block since /repo c2ba9bf: as `PowerUp`, and every OUTPUT register
+    holds the simulator's power-up value 0 -/
+structure PowerUpFull {σ : Type} (c : ClassD) (rd : σ → V.Rd) (st : σ) : Prop where
+  base : PowerUp c rd st
+  outp : ∀ n p, c.port? n = some p → p.isOut = true → (rd st).val n = ⟨p.width, 0, true⟩
+
+/-- ... which is related to the REAL power-up state of the Python object (all wires 0), no masking of outputs -/
+theorem powerup_crel_full {σ : Type} {c : ClassD} {rd : σ → V.Rd} {st : σ} (h : PowerUpFull c rd st) : CRel c rd (initSt c) st := by
+  have hb := powerup_crel h.base
+  refine ⟨⟨?_, ?_, ?_, ?_, ?_⟩, hb.typed, ?_, rfl⟩
+  · intro n v hk; simp [St.env, initSt] at hk
+  · intro n v hk hd hp hs; exact hb.agree.att n v hk hd hp hs
+  · intro n v k hk hs hcn; exact hb.agree.cst n v k hk hs hcn
+  · intro n v hk hd hp; exact hb.agree.par n v hk hd hp
+  · intro n v p hk hp
+    have hk' : (match c.port? n with | some _ => some (0:Int) | none => none) = some v := hk
+    rw [hp] at hk'
+    simp only [Option.some.injEq] at hk'
+    subst hk'
+    have hpos : (0:Int).toNat < 2 ^ p.width := by simpa using Nat.pos_of_ne_zero (by simp : (2:Nat) ^ p.width ≠ 0)
+    by_cases ho : p.isOut = true
+    · exact ⟨Int.le_refl _, hpos, h.outp n p hp ho⟩
+    · exact ⟨Int.le_refl _, hpos, h.base.inp n p hp (by simpa using ho)⟩
+  · intro k v hk; exact (isState_iff c k).2 ⟨v, hk⟩
+
+end C02
+
+namespace C02
+open Tp
+
+def zeroStmtsP (ps : List PortD) : List V.Stmt := ps.map fun p => V.Stmt.ba (.lid p.port) (numE 0)
+
+/-- executing `q = 0;` for a list of ports (each the class's port of that name) leaves 0 in every one of them, touches nothing else -/
+theorem init_outputs_zero {σ : Type} {rd : σ → V.Rd} {wr : σ → V.Tgt → V.BV → σ} (L : Laws rd wr) (c : ClassD) :
+    ∀ (ps : List PortD) (x : V.Ex σ), (∀ p, p ∈ ps → c.port? p.port = some p) → (∀ n, (rd x.st).info n = typing c n) →
+      (∀ p, p ∈ ps → (rd (execList rd wr (zeroStmtsP ps) x).st).val p.port = ⟨p.width, 0, true⟩) ∧
+      (∀ k, k ∉ ps.map (·.port) → (rd (execList rd wr (zeroStmtsP ps) x).st).val k = (rd x.st).val k) ∧
+      (∀ n, (rd (execList rd wr (zeroStmtsP ps) x).st).info n = typing c n) ∧
+      (execList rd wr (zeroStmtsP ps) x).nba = x.nba := by
+  intro ps
+  induction ps with
+  | nil => intro x _ ht; exact ⟨by simp, fun _ _ => rfl, ht, rfl⟩
+  | cons hd tl ih =>
+    intro x hok ht
+    have hp := hok hd (by simp)
+    have hw : V.widthOf (rd x.st) hd.port = hd.width := by rw [widthOf_typed (ht hd.port), hp]
+    have hv : V.evalAssign (rd x.st) hd.width (numE 0) = ⟨hd.width, 0, true⟩ := by
+      unfold V.evalAssign
+      simp only [selfW_numE, eval_numE _ (max hd.width 32) _ 0 (Nat.le_max_right _ _) (by decide), if_true]
+      simp
+    have hstep : V.exec rd wr none (V.Stmt.ba (.lid hd.port) (numE 0)) x =
+        { x with st := wr x.st (.whole hd.port) ⟨hd.width, 0, true⟩ } := by
+      simp only [V.exec, V.resolve, V.lhsWidth, hw, hv]
+    have ht1 : ∀ n, (rd (wr x.st (.whole hd.port) ⟨hd.width, 0, true⟩)).info n = typing c n := by
+      intro n; rw [L.info]; exact ht n
+    obtain ⟨i1, i2, i3, i4⟩ := ih { x with st := wr x.st (.whole hd.port) ⟨hd.width, 0, true⟩ }
+      (fun p hp' => hok p (by simp [hp'])) ht1
+    have hunf : execList rd wr (zeroStmtsP (hd :: tl)) x =
+        execList rd wr (zeroStmtsP tl) { x with st := wr x.st (.whole hd.port) ⟨hd.width, 0, true⟩ } := by
+      simp only [zeroStmtsP, List.map, execList, List.foldl, hstep]
+    rw [hunf]
+    refine ⟨?_, ?_, i3, i4⟩
+    · intro p hpm
+      simp only [List.mem_cons] at hpm
+      rcases hpm with rfl | hpm
+      · by_cases hin : p.port ∈ tl.map (·.port)
+        · obtain ⟨p', hp', hpe⟩ := List.mem_map.1 hin
+          have h1 := hok p' (by simp [hp'])
+          rw [hpe, hp] at h1
+          simp only [Option.some.injEq] at h1
+          subst h1
+          exact i1 p hp'
+        · rw [i2 _ hin]; exact L.same _ _ _
+      · exact i1 p hpm
+    · intro k hk
+      simp only [List.map, List.mem_cons, not_or] at hk
+      rw [i2 k hk.2]
+      exact L.other _ _ _ _ hk.1
+
+theorem execList_append {σ : Type} (rd : σ → V.Rd) (wr : σ → V.Tgt → V.BV → σ) (a b : List V.Stmt) (x : V.Ex σ) :
+    execList rd wr (a ++ b) x = execList rd wr b (execList rd wr a x) := by
+  simp [execList, List.foldl_append]
+
+end C02
